@@ -34,7 +34,7 @@ CHECKS = {
          "Real create + real verify for every case (through the guarded re-export), every verdict compared with an explicit round-by-round folding of the generators under the challenges recorded from the real run; round count, designed identity rejection, must-reject deviations and every wrong claimed length asserted.",
          "scalar table {0,1,rho,dense}; challenge scalar derivation replicated from the recorded 32-byte outputs", "4 C10"),
  "C11": ("exploration", "exhaustive enumeration of prefixes and invalid slot contents for proofs of every circuit size in a bounded family",
-         "For every proof of the size family and small program space: deterministic encoding, round trip, verdict preserved, exact length law, every strict prefix rejected, every scalar slot with a non-canonical value rejected, every point slot with an off-curve / non-canonical / small-order / out-of-subgroup point rejected.",
+         "For every proof of the size family and small program space: deterministic encoding, round trip, verdict preserved, exact length law, every strict prefix rejected, every scalar slot with a non-canonical value rejected, every point slot with an off-curve / non-canonical / small-order / out-of-subgroup point rejected, also in the unpaired tail of encodings whose two point lists have different lengths.",
          "proof family as listed in the evidence", "4 C11"),
  "C12": ("model_checking", "explicit-state enumeration (stateright BFS) of capacity histories, each replayed on a real BulletproofGens and compared with direct construction; content checks on every generator",
          "Every history of new/increase_capacity/serialize-deserialize up to the depth bound x parties 1..3 x 3 curves is executed on the implementation; every (n,m) view is compared with a directly constructed object; all generators are checked for order r, non-identity, pairwise distinctness and against SHA3 digests recorded from the reference revision, including an instance with 300 (quick) / 65 540 (thorough) parties and capacity 66 000 (thorough).",
